@@ -16,7 +16,9 @@ theorem tie_topsis_similarity (A : Mat m n α) (o : Vec n Obj) (w : Vec n α) (d
   funext i
   simp only [Gen.topsis_similarity, Np.where, Np.equal, Np.max, Np.min, Np.multiply, Np.divide, Np.add, Np.cdist1, Bc.zw, Red.red,
     Truthy.t, EMul.emul, Agg.similarityWith, id, sgn_eq_one, decide_eq_true_eq]
-  rfl
+  first
+    | rfl
+    | (rw [add_comm]; rfl)
 
 /-- the code ranks this very score, in the direction the model's `evaluate` uses -/
 theorem tie_topsis_similarity_rank : Gen.topsis_similarity_rank_reverse = Eval.Method.rev (.topsis .euclidean) ∧ Gen.topsis_similarity_rank_of_result = true := by decide
